@@ -544,6 +544,60 @@ static Outcome run_rate_monitor(const Scenario & sc)
   return out;
 }
 
+// Two mutators: update() from one thread while another thread calls reset().  Both take the
+// object's mutex, so any interleaving is a sequence of whole operations; at a quiescent point,
+// after 2W further known samples, the statistics must equal those of a fresh object fed the same
+// 2W samples (the sums are exact integers, so the comparison is bitwise).
+template<class Stat>
+static Outcome run_stat_concurrent_reset(const Scenario & sc, const std::string & cls)
+{
+  Outcome out; out.logs.resize(1);
+  const size_t W = 2 + sc.ops % 13;
+  Stat stat(0.01, W);
+  const int rounds = 40;
+  const uint64_t burst = std::max<uint64_t>(50, sc.ops / rounds / 4);
+  uint64_t resets_total = 0;
+  ReaderLog & L = out.logs[0];
+  for (int rd = 0; rd < rounds; ++rd) {
+    std::atomic<bool> done{false};
+    std::atomic<uint64_t> resets{0};
+    StartGate gate;
+    std::thread upd([&]() {
+        gate.arrive_and_wait();
+        for (uint64_t j = 1; j <= burst; ++j) {stat.update(0.25 * (double)(j % 97) + rd); maybe_yield();}
+        done.store(true, std::memory_order_release);
+      });
+    std::thread rst([&]() {
+        gate.arrive_and_wait();
+        while (!done.load(std::memory_order_acquire)) {stat.reset(); resets.fetch_add(1); maybe_yield(); sched_yield();}
+      });
+    std::thread rdr([&]() {
+        gate.arrive_and_wait();
+        while (!done.load(std::memory_order_acquire)) {(void)stat.getAverage(); (void)stat.isAvailable(); maybe_yield();}
+      });
+    gate.open(3);
+    upd.join(); rst.join(); rdr.join();
+    resets_total += resets.load();
+    // quiescent point
+    Stat ref(0.01, W);
+    for (size_t j = 0; j < 2 * W; ++j) {double x = 1.5 * (double)j + 0.25 * rd; stat.update(x); ref.update(x);}
+    ++L.reads;
+    bool ok = bits(stat.getAverage()) == bits(ref.getAverage()) && stat.isAvailable() == ref.isAvailable();
+    double v1 = 0, v2 = 0;
+    if constexpr (std::is_same<Stat, OnlineVariance>::value) {v1 = stat.getVariance(); v2 = ref.getVariance(); ok = ok && bits(v1) == bits(v2);}
+    if (!ok) {
+      if (L.violation.empty()) {
+        L.kind = "statistic_corrupted_after_concurrent_reset";
+        L.violation = vh::J().f("round", rd).f("average", stat.getAverage()).f("expected_average", ref.getAverage()).f("variance", v1).f("expected_variance", v2).str();
+      }
+    } else {++L.changes;}
+  }
+  out.writer_ops = burst * rounds;
+  out.op_counts[cls + "::update(concurrent with reset)"] = burst * rounds;
+  out.op_counts[cls + "::reset(concurrent with update)"] = resets_total;
+  return out;
+}
+
 // Slow source (period 1 s > the 0.5 s time-out): a heartbeat stamped 0.4 s before the stamp the
 // writer is about to feed times out only if it takes effect BEFORE that update; once update() /
 // evaluate() has returned, no sequential order of the calls leaves the rate at 0 or the report
@@ -600,8 +654,8 @@ static Outcome run_slow_source(const Scenario & sc, const std::string & cls, Obj
 static const char * SCEN[] = {"SharedVariable", "SharedOptionalVariable", "OnlineAverage", "OnlineVariance",
   "CheckupEqualTo", "CheckupGreaterThan", "CheckupLowerThan", "CheckupReliability", "CheckupEqualToRate",
   "CheckupGreaterThanRate", "RateMonitoring", "RateMonitoring_slow_source", "CheckupEqualToRate_slow_source",
-  "CheckupGreaterThanRate_slow_source"};
-static const int NSCEN = 14;
+  "CheckupGreaterThanRate_slow_source", "OnlineAverage_concurrent_reset", "OnlineVariance_concurrent_reset"};
+static const int NSCEN = 16;
 
 static void one_case(vh::Ctx & c, uint64_t idx)
 {
@@ -680,6 +734,8 @@ static void one_case(vh::Ctx & c, uint64_t idx)
             });
         break;
       }
+    case 14: out = run_stat_concurrent_reset<OnlineAverage>(sc, "OnlineAverage"); break;
+    case 15: out = run_stat_concurrent_reset<OnlineVariance>(sc, "OnlineVariance"); break;
     default: {
         CheckupGreaterThanRate chk("imu", 1.0, 0.1);
         out = run_slow_source(sc, "CheckupGreaterThanRate", chk,
@@ -724,7 +780,7 @@ static void one_case(vh::Ctx & c, uint64_t idx)
 
 int main(int argc, char ** argv)
 {
-  return vh::run(argc, argv, "C19", {224, 2240}, one_case, [](vh::Ctx & c) {
+  return vh::run(argc, argv, "C19", {256, 2560}, one_case, [](vh::Ctx & c) {
       c.count("hook.Checkup::setDiagnostic_", g_hook_hits[0].load());
       c.count("hook.CheckupRate::evaluate", g_hook_hits[1].load());
       c.count("hook.CheckupRate::heartBeatCallback", g_hook_hits[2].load());
